@@ -110,6 +110,13 @@ def NoCross (keys : List Str) : Prop :=
   ∀ k1 ∈ keys, ∀ k2 ∈ keys, k2 ≠ k1 → k2 ≠ star → ∀ p ∈ splitWs k2,
     ∀ pre mid suf : Str, k1 = pre ++ mid ++ suf → ¬ Matches p mid
 
+/-- WEAKER than `NoCross` (review item 4): a pattern of a non-`*` Host line `k2` may have an instance inside the text
+    of another Host line, provided `k2` also names the looked-up host (then what is inherited from it comes from a naming
+    entry anyway).  Allows `Host web1*` next to `Host web*` for the name `web17`. -/
+def CrossNaming (keys : List Str) (name : Str) : Prop :=
+  ∀ k1 ∈ keys, ∀ k2 ∈ keys, k2 ≠ k1 → k2 ≠ star → ∀ p ∈ splitWs k2,
+    ∀ pre mid suf : Str, k1 = pre ++ mid ++ suf → Matches p mid → Names k2 name
+
 /-- `e` carries everything `e0` sets itself -/
 def Keeps (e0 e : Entry) : Prop :=
   e.hosts = e0.hosts ∧ e.hostname = e0.hostname ∧
@@ -132,6 +139,13 @@ def anchoredB (keys : List Str) (name : Str) : Bool :=
 def noCrossB (keys : List Str) : Bool :=
   keys.all fun k1 => keys.all fun k2 =>
     k2 == k1 || k2 == star || (splitWs k2).all fun p => (infixes k1).all fun mid => !globMatch p mid
+
+def namesB (key name : Str) : Bool := key == star || key == name || (splitWs key).any (globMatch · name)
+
+def crossNamingB (keys : List Str) (name : Str) : Bool :=
+  keys.all fun k1 => keys.all fun k2 =>
+    k2 == k1 || k2 == star || namesB k2 name ||
+      (splitWs k2).all fun p => (infixes k1).all fun mid => !globMatch p mid
 
 /-! ### known_hosts -/
 
